@@ -135,6 +135,10 @@ const (
 	opSetLimit
 	opExtend
 	opPrelude // marker: the thread that starts with it runs to completion before the others start
+	// opPipeReader: DetectReader on a pipe-like reader whose data only arrives
+	// once every other thread of the scenario has returned from all its calls
+	// (the producer side of the pipe is "the rest of the program")
+	opPipeReader
 )
 
 type c06Op struct{ kind, arg int }
@@ -153,6 +157,8 @@ func (o c06Op) String() string {
 		return fmt.Sprintf("Extend#%d(%s)", o.arg, c06Exts[o.arg].desc)
 	case opPrelude:
 		return "[runs first, sequentially]"
+	case opPipeReader:
+		return fmt.Sprintf("DetectReader(pipe fed with in%d after the other goroutines returned)", o.arg)
 	}
 	return "?"
 }
@@ -191,9 +197,15 @@ func c06Limit(arg int) uint32 { return uint32(arg) }
 type schedReader struct {
 	data []byte
 	pos  int
+	gate func() // non-nil: the first Read blocks in it until the data "arrives"
 }
 
 func (r *schedReader) Read(p []byte) (int, error) {
+	if r.gate != nil {
+		g := r.gate
+		r.gate = nil
+		g()
+	}
 	if h := sched.Active; h != nil {
 		h.Point("reader.read", r)
 	}
@@ -218,6 +230,7 @@ type c06Rec struct {
 	bad         string // oracle (3)/(4) failure found by the thread itself
 	backing     []string
 	spareFrom   int
+	gate        func() // opPipeReader: blocks until the other threads are done
 	force       string // sequential replay: reproduce the recorded attachment of a compound Lookup+Extend
 }
 
@@ -276,6 +289,12 @@ func c06DoOp(rec *c06Rec, clock func() int, point func(string)) {
 		rec.result = chainStr(mimetype.Detect(c06Inputs[rec.op.arg]))
 	case opReader:
 		m, err := mimetype.DetectReader(&schedReader{data: c06Inputs[rec.op.arg]})
+		rec.result = chainStr(m)
+		if err != nil {
+			rec.bad = "DetectReader returned error " + err.Error()
+		}
+	case opPipeReader:
+		m, err := mimetype.DetectReader(&schedReader{data: c06Inputs[rec.op.arg], gate: rec.gate})
 		rec.result = chainStr(m)
 		if err != nil {
 			rec.bad = "DetectReader returned error " + err.Error()
@@ -400,6 +419,7 @@ func c06Exec(x *explore.Exec, sc c06Scenario) (bool, string, string, string) {
 	s := sched.NewCoop(x)
 	var recs []*c06Rec
 	curExt := map[int]*c06Rec{} // thread -> Extend in progress
+	threadOf := map[int]int{}   // scenario thread -> scheduler thread id
 	s.OnStep = func(thread int, kind string, obj any) {
 		if r := curExt[thread]; r != nil {
 			switch kind {
@@ -425,12 +445,24 @@ func c06Exec(x *explore.Exec, sc c06Scenario) (bool, string, string, string) {
 			}
 			continue
 		}
-		s.Go(func() {
+		threadOf[ti] = s.Go(func() {
 			for i, o := range ops {
 				r := &c06Rec{thread: ti, idx: i, op: o}
 				recs = append(recs, r)
 				if o.kind == opExtend {
 					curExt[ti] = r
+				}
+				if o.kind == opPipeReader {
+					r.gate = func() {
+						s.WaitUntil("pipe", func() bool {
+							for tj := range sc {
+								if tj != ti && !(len(sc[tj]) > 0 && sc[tj][0].kind == opPrelude) && !s.Done(threadOf[tj]) {
+									return false
+								}
+							}
+							return true
+						})
+					}
 				}
 				c06DoOp(r, func() int { return s.Steps }, func(k string) { s.Point(k, nil) })
 				curExt[ti] = nil
@@ -565,7 +597,7 @@ func c06Exec(x *explore.Exec, sc c06Scenario) (bool, string, string, string) {
 	var obs []string
 	for _, r := range recs {
 		obs = append(obs, fmt.Sprintf("%d.%d=%s", r.thread, r.idx, r.result))
-		if r.op.kind != opDetect && r.op.kind != opReader {
+		if r.op.kind != opDetect && r.op.kind != opReader && r.op.kind != opPipeReader {
 			continue
 		}
 		// admissible limits
@@ -758,6 +790,7 @@ func c06Setup(c *core.Ctx) {
 func c06Scenarios(thorough bool) []c06Scenario {
 	D := func(i int) c06Op { return c06Op{opDetect, i} }
 	R := func(i int) c06Op { return c06Op{opReader, i} }
+	RP := func(i int) c06Op { return c06Op{opPipeReader, i} }
 	L := func(i int) c06Op { return c06Op{opLookup, i} }
 	S := func(v int) c06Op { return c06Op{opSetLimit, v} }
 	E := func(i int) c06Op { return c06Op{opExtend, i} }
@@ -770,6 +803,13 @@ func c06Scenarios(thorough bool) []c06Scenario {
 		{P(E(1)), T(L(4)), T(L(5)), T(L(0))},
 		{P(E(0)), T(D(2)), T(D(2))},
 		{P(S(8)), T(D(3)), T(S(3072))},
+		// a reader on a pipe: its Read returns only after the other goroutines'
+		// calls have returned (nothing may be held across the call into the reader)
+		{T(RP(2)), T(E(0))},
+		{T(RP(2)), T(D(2))},
+		{T(RP(3)), T(S(8), E(0))},
+		{T(RP(0)), T(L(0), E(1))},
+		{T(RP(2)), T(E(0)), T(D(2))},
 		// readers only: calls that touch the same pooled or lazily built shared state
 		{T(D(2)), T(D(3))},
 		{T(D(2)), T(D(2))},
